@@ -127,8 +127,8 @@ class SymBuilder:
         self.objects[name] = o
         return o
 
-    def obj(self, name, cls, closed=True, **fields):
-        o = self.ctx.alloc(HObj(cls, 'obj', dict(fields), closed=closed))
+    def obj(self, name, cls, sealed=True, **fields):
+        o = self.ctx.alloc(HObj(cls, 'obj', dict(fields), closed=sealed))
         self.objects[name] = o
         return o
 
